@@ -42,6 +42,7 @@ func runC05(c *Ctx) {
 	c.St.Rule = "programs of list operations over a heap of lists/objects; a case is non-trivial when it has at least 3 operations of which at least one mutates; distinct by hash of the operation sequence"
 	c.nilArguments()
 	c.slicesStratum()
+	c.sortedThen("C05")
 
 	// stratum 1: small-scope exhaustive — every sequence of k menu operations on a fixed heap
 	menu := c05Menu()
